@@ -469,17 +469,10 @@ func (c *client) onHandOver(bd *types.BlockData) {
 func (s *ssim) exchange(sv *server, req *messages.BlockRequestMessage, id int) (*gsync.SyncTaskResult, *respInfo) {
 	k := s.k
 	who := peerOf(sv.id)
-	raw, err := req.Encode()
-	if err != nil {
-		panic(err)
-	}
-	sreq := new(messages.BlockRequestMessage)
-	if err := sreq.Decode(raw); err != nil {
-		panic(err)
-	}
+	sreq := s.viaWire(req)
 	resp, err := sv.svc.CreateBlockResponse(peer.ID("client"), sreq)
 	if err == nil {
-		s.checkServed(sv, sreq, resp, "client")
+		s.checkServed(sv, req, resp, "client") // judged against what was asked, not against the server's decoded copy
 	}
 	if err != nil || k.Bool(1, 12, "response-lost") {
 		if err == nil {
@@ -655,4 +648,40 @@ func (s *ssim) mutate(resp *messages.BlockResponseMessage, req *messages.BlockRe
 		resp.BlockData = append(bd[:i+1:i+1], bd[i:]...)
 		return "byz-duplicated-block"
 	}
+}
+
+// viaWire: a request reaches the server as bytes and is decoded there by the real decoder. Requests of
+// several peers overlap in a node: between the decoding of this request and its being served, the
+// server may decode another one (a different maximum, or none).
+func (s *ssim) viaWire(req *messages.BlockRequestMessage) *messages.BlockRequestMessage {
+	raw, err := req.Encode()
+	if err != nil {
+		panic(err)
+	}
+	sreq := new(messages.BlockRequestMessage)
+	if err := sreq.Decode(raw); err != nil {
+		panic(err)
+	}
+	if s.k.Bool(1, 3, "another-request-decoded-meanwhile") {
+		other := *req
+		switch s.k.Choose(3, "other-request-max") {
+		case 0:
+			other.Max = nil
+		case 1:
+			m := uint32(100)
+			other.Max = &m
+		default:
+			m := uint32(1)
+			other.Max = &m
+		}
+		oraw, err := other.Encode()
+		if err != nil {
+			panic(err)
+		}
+		if err := new(messages.BlockRequestMessage).Decode(oraw); err != nil {
+			panic(err)
+		}
+		s.k.Fault("overlapping-request-decoded")
+	}
+	return sreq
 }
